@@ -289,14 +289,16 @@ pub fn build(cfg: Cfg, rows: &[RowIng], fresh: &[RowIng]) -> Case {
             // (<x,y> + c)^d with a fractional d needs a positive base: the constant is *constructed* from the
             // smallest inner product between a training row and any training / fresh row so that the base
             // is >= FRACTIONAL_BASE_MIN for every kernel evaluation of fit and predict (1/16 grid: exact in f32)
-            let mut min_ip = 0.0f64;
+            let mut max_abs_ip = 0.0f64;
             for xi in &x {
                 for y in x.iter().chain(fresh.iter()) {
                     let ip: f64 = xi.iter().zip(y).map(|(a, b)| a * b).sum();
-                    min_ip = min_ip.min(ip);
+                    max_abs_ip = max_abs_ip.max(ip.abs());
                 }
             }
-            let c0 = ((-min_ip + FRACTIONAL_BASE_MIN) * 16.0).ceil() / 16.0;
+            // c >= max |<x,y>| + 1/2: the base lies in [1/2, 2c] and |<x,y>|/c < 1, so the binomial series of
+            // c^d (1 + <x,y>/c)^d converges and its leading (positive semi-definite) terms dominate
+            let c0 = ((max_abs_ip + FRACTIONAL_BASE_MIN) * 16.0).ceil() / 16.0;
             Kern::Poly(r32(c0 + c, single), r32(d, single))
         }
     };
